@@ -149,7 +149,8 @@ deriving Inhabited
 /-! ### updates -/
 
 def World.updSlot (w : World) (s : Nat) (f : Ctx → Ctx) : World :=
-  { w with slot := fun i => if i = s then (w.slot s).map f else w.slot i }
+  let v := (w.slot s).map f
+  { w with slot := fun i => if i = s then v else w.slot i }
 
 def World.updLink (w : World) (s : Nat) (f : Link → Link) : World :=
   w.updSlot s fun c => { c with link := f c.link }
@@ -158,10 +159,12 @@ def World.updAux (w : World) (s : Nat) (f : Aux → Aux) : World :=
   w.updSlot s fun c => { c with aux := f c.aux }
 
 def World.updHost (w : World) (h : Nat) (f : Host → Host) : World :=
-  { w with host := fun i => if i = h then f (w.host h) else w.host i }
+  let v := f (w.host h)
+  { w with host := fun i => if i = h then v else w.host i }
 
 def World.updProc (w : World) (h p : Nat) (f : Proc → Proc) : World :=
-  { w with proc := fun i j => if i = h ∧ j = p then f (w.proc h p) else w.proc i j }
+  let v := f (w.proc h p)
+  { w with proc := fun i j => if i = h ∧ j = p then v else w.proc i j }
 
 def World.emit (w : World) (e : Ev) : World := { w with log := e :: w.log }
 
@@ -302,16 +305,29 @@ def hostGet (w : World) (s : Nat) : Option Nat × World :=
 
 /-! ### load accounting primitives -/
 
-/-- hctx->host = host; gw_host_assign(host) -/
+/-- hctx->host = host; gw_host_assign(host)   (an hctx exists wherever the C does this) -/
 def hostAssign (w : World) (s h : Nat) : World :=
-  (w.updLink s fun l => { l with host := some h }).updHost h fun H =>
-    { H with load := H.load + 1, statLoad := H.load + 1 }
+  match w.slot s with
+  | none => w
+  | some _ =>
+    (w.updLink s fun l => { l with host := some h }).updHost h fun H =>
+      { H with load := H.load + 1, statLoad := H.load + 1 }
 
 /-- hctx->proc = proc; gw_proc_load_inc(host, proc) -/
 def procAcquire (w : World) (s h p : Nat) : World :=
-  let w1 := (w.updLink s fun l => { l with proc := some p }).updProc h p fun P =>
-    { P with load := P.load + 1, statLoad := P.load + 1 }
-  { w1 with globalActive := w1.globalActive + 1 }
+  match w.slot s with
+  | none => w
+  | some _ =>
+    let w1 := (w.updLink s fun l => { l with proc := some p }).updProc h p fun P =>
+      { P with load := P.load + 1, statLoad := P.load + 1 }
+    { w1 with globalActive := w1.globalActive + 1 }
+
+/-- fdevent_socket_nb_cloexec() ok: ++cur_fds, hctx->fd, fdevent_register -/
+def openFd (w : World) (s : Nat) : World :=
+  match w.slot s with
+  | none => w
+  | some _ =>
+    ({ w with curFds := w.curFds + 1, opened := w.opened + 1 }).updLink s fun l => { l with fd := true }
 
 /-- gw_backend_close() -/
 def backendClose (w : World) (s : Nat) : World :=
@@ -461,8 +477,7 @@ def wrInit (w : World) (s : Nat) : Rc × World :=
       if k.1 = 'n' then (.error, k.2)
       else
         -- socket, ++cur_fds, fdevent_register, write_ts, gw_host_hctx_enq
-        let w2 := { k.2 with curFds := k.2.curFds + 1, opened := k.2.opened + 1 }
-        let w2 := w2.updLink s fun l => { l with fd := true }
+        let w2 := openFd k.2 s
         let w2 := w2.updAux s fun a =>
           { a with evIn := false, evOut := false, evRdhup := false,
                    pid := if (w2.proc h p).isLocal then (w2.proc h p).pid else a.pid,
@@ -732,17 +747,83 @@ def initWorld (balance : Nat) (wkr : Bool) (nslots : Nat) (specs : List HostSpec
       | some sp => { isLocal := sp.kind = 'l', pid := if sp.kind = 'l' then 5000 + 10 * i + j else 0 }
       | none => {} }
 
+
+/-! ### specification vocabulary: what "equals the number of requests in flight" means -/
+
+/-- Σ_{i<n} f i -/
+def sumTo (n : Nat) (f : Nat → Int) : Int :=
+  match n with
+  | 0 => 0
+  | n + 1 => sumTo n f + f n
+
+def hostC (h : Nat) (c : Option Ctx) : Int :=
+  match c with
+  | some c => if c.link.host = some h then 1 else 0
+  | none => 0
+
+def procC (h p : Nat) (c : Option Ctx) : Int :=
+  match c with
+  | some c => if c.link.host = some h ∧ c.link.proc = some p then 1 else 0
+  | none => 0
+
+def anyProcC (c : Option Ctx) : Int :=
+  match c with
+  | some c => if c.link.proc.isSome then 1 else 0
+  | none => 0
+
+def fdC (c : Option Ctx) : Int :=
+  match c with
+  | some c => if c.link.fd then 1 else 0
+  | none => 0
+
+/-- number of request contexts bound to host h -/
+def hostCnt (w : World) (h : Nat) : Int := sumTo w.nslots fun s => hostC h (w.slot s)
+/-- number of request contexts bound to proc p of host h -/
+def procCnt (w : World) (h p : Nat) : Int := sumTo w.nslots fun s => procC h p (w.slot s)
+/-- number of request contexts holding any proc -/
+def anyProcCnt (w : World) : Int := sumTo w.nslots fun s => anyProcC (w.slot s)
+/-- number of request contexts holding a backend socket -/
+def fdCnt (w : World) : Int := sumTo w.nslots fun s => fdC (w.slot s)
+/-- number of RUNNING procs of host h -/
+def runningCnt (w : World) (h : Nat) : Int :=
+  sumTo (w.host h).nprocs fun p => if (w.proc h p).state = .running then 1 else 0
+
+/-- shape of one request context; `relaxed` = in the middle of gw_send_request,
+    between a failed GW_STATE_INIT step and the gw_write_error that cleans it up -/
+structure SlotOk (relaxed : Bool) (c : Ctx) : Prop where
+  proc_host : c.link.proc.isSome → c.link.host.isSome
+  fd_proc : c.link.fd = true → c.link.proc.isSome
+  init_clean : relaxed = false → c.link.state = .init → c.link.proc = none ∧ c.link.fd = false
+
+/-- the accounting invariant; `t` names the slot (if any) that is mid-request -/
+structure Acct (t : Option Nat) (w : World) : Prop where
+  hostLoad : ∀ h, (w.host h).load = hostCnt w h
+  hostStat : ∀ h, (w.host h).statLoad = (w.host h).load
+  procLoad : ∀ h p, (w.proc h p).load = procCnt w h p
+  procStat : ∀ h p, (w.proc h p).statLoad = (w.proc h p).load
+  global : w.globalActive = anyProcCnt w
+  fds : w.curFds = fdCnt w + w.pendClose
+  ghost : (w.opened : Int) = w.closed + fdCnt w + w.pendClose
+  slots : ∀ s c, w.slot s = some c → SlotOk (decide (t = some s)) c
+  range : ∀ s, w.nslots ≤ s → w.slot s = none
+
+/-- availability bookkeeping: active_procs counts the RUNNING procs -/
+def Avail (w : World) : Prop := ∀ h, (w.host h).active = runningCnt w h
+
 /-! ### driver aid: re-tabulate the maps (extensionally the identity, `compact_eq`) so
     that look-ups do not walk the whole update history of a long operation list -/
 
-def tab {α : Type} (n : Nat) (f : Nat → α) : Nat → α :=
-  let a := Array.ofFn (n := n) fun i => f i.val
+def tab {α : Type} (a : Array α) (f : Nat → α) : Nat → α :=
   fun i => if h : i < a.size then a[i] else f i
+
+def tab2 {α : Type} (a : Array (Array α)) (f : Nat → Nat → α) : Nat → Nat → α :=
+  fun i j => if h : i < a.size then (if h2 : j < a[i].size then a[i][j] else f i j) else f i j
 
 def compact (w : World) : World :=
   let maxp := (List.range w.nhosts).foldl (fun m h => max m (w.host h).nprocs) 0
-  let pt := tab w.nhosts fun h => tab maxp (w.proc h)
-  { w with host := tab w.nhosts w.host, slot := tab w.nslots w.slot,
-           proc := fun h p => if h < w.nhosts then pt h p else w.proc h p }
+  let ha := Array.ofFn (n := w.nhosts) fun h => w.host h.val
+  let sa := Array.ofFn (n := w.nslots) fun s => w.slot s.val
+  let pa := Array.ofFn (n := w.nhosts) fun h => Array.ofFn (n := maxp) fun p => w.proc h.val p.val
+  { w with host := tab ha w.host, slot := tab sa w.slot, proc := tab2 pa w.proc }
 
 end LtVerif.Gw
